@@ -174,3 +174,108 @@ func TestC09Truncation(t *testing.T) {
 func init() {
 	vh.RegisterReplay("C09.truncation", vh.Replayer(runC09))
 }
+
+// ---------------------------------------------------------------- a killed file read together with an intact one
+
+// What the commands do with several files: one decoder per file, combined round-robin. A file
+// cut in mid-record contributes exactly its complete records, and the torn tail does not
+// leak into the records of the other file (a failed call leaves nothing behind).
+type c09Pair struct {
+	CodecA, CodecB string
+	A, B           []vegeta.Result
+	Cut            int  // byte offset at which A ends
+	AFirst         bool // A is the first input
+	Auto           bool // decoders obtained through DecoderFor
+}
+
+func runC09Pair(c c09Pair) error {
+	da, ends, err := vgen.EncodeAll(vgen.CodecByName(c.CodecA), c.A)
+	if err != nil {
+		return err
+	}
+	db, _, err := vgen.EncodeAll(vgen.CodecByName(c.CodecB), c.B)
+	if err != nil {
+		return err
+	}
+	cut := c.Cut
+	if cut > len(da) {
+		cut = len(da)
+	}
+	kA := sort.SearchInts(ends, cut+1) // complete records of A
+	mk := func(name string, data []byte) vegeta.Decoder {
+		if c.Auto {
+			return vegeta.DecoderFor(bytes.NewReader(data))
+		}
+		return vgen.CodecByName(name).Dec(bytes.NewReader(data))
+	}
+	decA, decB := mk(c.CodecA, da[:cut]), mk(c.CodecB, db)
+	if decB == nil {
+		return fmt.Errorf("no decoder for the intact %s stream", c.CodecB)
+	}
+	if decA == nil { // nothing detectable in the killed file (possible only with kA == 0)
+		if kA > 0 {
+			return fmt.Errorf("DecoderFor found no decoder for a %s file holding %d complete records", c.CodecA, kA)
+		}
+		return nil
+	}
+	dec := vegeta.NewRoundRobinDecoder(decA, decB)
+	if !c.AFirst {
+		dec = vegeta.NewRoundRobinDecoder(decB, decA)
+	}
+	var gotA, gotB []vegeta.Result
+	for i := 0; i <= len(c.A)+len(c.B)+2; i++ {
+		var r vegeta.Result
+		if err := dec.Decode(&r); err != nil {
+			break
+		}
+		if r.Attack == "A" {
+			gotA = append(gotA, r)
+		} else {
+			gotB = append(gotB, r)
+		}
+	}
+	what := fmt.Sprintf("a %s file of %d records cut at byte %d of %d (%d complete) read round-robin with an intact %s file of %d records", c.CodecA, len(c.A), cut, len(da), kA, c.CodecB, len(c.B))
+	if d := vgen.DiffResults(c.A[:kA], gotA); d != "" {
+		return fmt.Errorf("%s: records of the killed file: %s", what, d)
+	}
+	if d := vgen.DiffResults(c.B, gotB); d != "" {
+		return fmt.Errorf("%s: records of the intact file: %s", what, d)
+	}
+	return nil
+}
+
+func TestC09Pair(t *testing.T) {
+	vh.Check(t, 150, 4000, func(t *rapid.T) {
+		c := c09Pair{CodecA: rapid.SampledFrom([]string{"gob", "json", "json"}).Draw(t, "codeca"), CodecB: rapid.SampledFrom([]string{"gob", "csv", "json"}).Draw(t, "codecb"),
+			AFirst: rapid.Bool().Draw(t, "afirst"), Auto: rapid.Bool().Draw(t, "auto")}
+		c.A = vgen.Results(t, "a", 1, 8, vgen.ResultOpts{})
+		c.B = vgen.Results(t, "b", 1, 12, vgen.ResultOpts{})
+		for i := range c.A {
+			c.A[i].Attack = "A"
+		}
+		for i := range c.B {
+			c.B[i].Attack = "B"
+		}
+		da, ends, _ := vgen.EncodeAll(vgen.CodecByName(c.CodecA), c.A)
+		switch rapid.IntRange(0, 2).Draw(t, "cutkind") {
+		case 0:
+			c.Cut = ends[rapid.IntRange(0, len(ends)-1).Draw(t, "end")] + rapid.IntRange(-3, 3).Draw(t, "delta")
+		default:
+			c.Cut = rapid.IntRange(0, len(da)).Draw(t, "cut")
+		}
+		if c.Cut < 0 {
+			c.Cut = 0
+		}
+		k := sort.SearchInts(ends, c.Cut+1)
+		inside := k < len(ends) && (k == 0 || ends[k-1] != c.Cut)
+		sig, _ := json.Marshal(c)
+		vh.Case("C09.pair", fmt.Sprintf("%x", vh.Hash(string(sig))), inside && k >= 1, c.CodecA+"+"+c.CodecB, fmt.Sprintf("cut-inside-a-record:%v", inside))
+		var err error
+		vh.Guard("C09", "C09.pair", c, func() { err = runC09Pair(c) })
+		if err != nil {
+			vh.Fail(t, "C09", "C09.pair", c, err)
+		}
+	})
+}
+
+func init() { vh.RegisterReplay("C09.pair", vh.Replayer(runC09Pair)) }
